@@ -172,6 +172,14 @@ def calculate_viability_and_necessity(graph: AttackGraph) -> None:
     graph       - the attack graph for which we wish to determine the
                   viability and necessity statuses for the nodes.
     """
+    # The propagation below can only lower the labels of attack steps, so
+    # labels left by an earlier analysis or loaded from a file must not
+    # survive a change of a defense or existence status.
+    for node in graph.nodes:
+        if node.type in ['or', 'and']:
+            node.is_viable = True
+            node.is_necessary = True
+
     for node in graph.nodes:
         if node.type in ['exist', 'notExist', 'defense']:
             evaluate_viability_and_necessity(node)
